@@ -164,6 +164,10 @@ func c05Shapes() []c05shape {
 		{Name: "array-string", Kind: "array", Schema: gen.S{"type": "array", "items": strS}, Values: []any{gen.Arr("a"), gen.Arr("ab", "cd"), gen.Arr("x", "y", "z"), gen.Arr("1", "2")}},
 		{Name: "array-constrained", Kind: "array", Schema: gen.S{"type": "array", "items": gen.S{"type": "integer", "maximum": 5.0}, "minItems": 2.0, "maxItems": 3.0, "uniqueItems": true},
 			Values: []any{gen.Arr(1.0), gen.Arr(1.0, 2.0), gen.Arr(1.0, 1.0), gen.Arr(1.0, 2.0, 3.0, 4.0), gen.Arr(1.0, 9.0)}},
+		// enum over whole arrays and objects: the members hold numbers as the document has them
+		{Name: "array-integer-enum", Kind: "array", Schema: gen.S{"type": "array", "items": intS, "enum": gen.Arr(gen.Arr(1.0, 2.0), gen.Arr(3.0))}, Values: []any{gen.Arr(1.0, 2.0), gen.Arr(3.0), gen.Arr(2.0, 1.0), gen.Arr(1.0)}},
+		{Name: "object-integer-enum", Kind: "object", Schema: gen.S{"type": "object", "properties": gen.S{"id": intS, "role": strS}, "enum": gen.Arr(gen.S{"id": 1.0}, gen.S{"id": 2.0, "role": "r"})},
+			Values: []any{gen.S{"id": 1.0}, gen.S{"id": 2.0, "role": "r"}, gen.S{"id": 2.0}, gen.S{"id": 1.0, "role": "r"}}},
 		{Name: "object-flat", Kind: "object", Schema: gen.S{"type": "object", "properties": objProps},
 			Values: []any{gen.S{"role": "admin", "id": 7.0}, gen.S{"role": "admin"}, gen.S{"id": 3.0, "ok": true, "score": 1.5, "role": "u"}, gen.S{"ok": false, "score": 2.0}},
 			Order:  [][]string{nil, {"score", "role", "ok", "id"}},
